@@ -20,7 +20,11 @@ pub fn run_sut(forms: &[Form], budget: Budget) -> Obs {
 }
 
 fn compare_under(forms: &[Form], obs: &Obs, order: crate::refeval::Order) -> Cmp {
-    let mut m = Machine::new(order);
+    compare_machine(forms, obs, Machine::new(order))
+}
+
+/// compare against a prepared model machine (libraries registered, bare frame, ...)
+pub fn compare_machine(forms: &[Form], obs: &Obs, mut m: Machine) -> Cmp {
     for (i, f) in forms.iter().enumerate() {
         m.trace.clear();
         let r = m.eval_form(f);
